@@ -253,13 +253,13 @@ theorem fieldKeepAnalyze_lower (ns : NS) (tf : List Bool) (f : Field) (b : Bool)
     · cases h
   · exact h
 
-theorem fieldKeepPass3_lower (ns : NS) (tf row : List Bool) (f : Field) (b : Bool)
-    (h : fieldKeepPass3 ns tf row f b = true) : b = true := by
+theorem fieldKeepPass3_lower (ns : NS) (tf : List Bool) (subs : List Sub) (row : List Bool) (f : Field) (b : Bool)
+    (h : fieldKeepPass3 ns tf subs row f b = true) : b = true := by
   unfold fieldKeepPass3 at h
   split at h
   · split at h
-    · exact h
     · cases h
+    · exact h
   · split at h
     · split at h
       · exact h
@@ -326,7 +326,7 @@ theorem pass3Step_le (ns : NS) (s : St) (i : Nat) : StLe (pass3Step ns s i) s :=
     · exact StLe.refl s
     · split
       · exact ⟨Le.refl _, le2_set (rowMap_le _ _ _ (subKeep_lower _)),
-          le2_set (rowMap_le _ _ _ (fieldKeepPass3_lower ns s.tf _)), Le2.refl _⟩
+          le2_set (rowMap_le _ _ _ (fieldKeepPass3_lower ns s.tf _ _)), Le2.refl _⟩
       · exact StLe.refl s
 
 theorem aliasWalk_le (ns : NS) (s : St) : StLe (aliasWalk ns s) s := foldl_le _ (aliasStep_le ns) _ _
@@ -570,6 +570,7 @@ def LeafOK (ns : NS) (tf : List Bool) : Ty → Prop
   | .fund n => n ≠ vaList ∧ n ∉ bigTypes
   | .ref n => ∃ i t, ns.find n = some i ∧ ns.tops[i]? = some t ∧ tf.getD i false = true ∧ t.skip = false
   | .ext intro skip _ => intro = true ∧ skip = false
+  | .varargs => False
   | _ => True
 
 theorem leafOK_of_leafOk {ns : NS} {tf : List Bool} {l : Ty} (h : leafOk ns tf l = true) : LeafOK ns tf l := by
@@ -592,7 +593,7 @@ theorem leafOK_of_leafOk {ns : NS} {tf : List Bool} {l : Ty} (h : leafOk ns tf l
         exact ⟨i, t, hf, ht, h.1, h.2⟩
   | ext a b c => simpa [leafOk, LeafOK] using h
   | foreignT => trivial
-  | varargs => trivial
+  | varargs => simp [leafOk] at h
   | array e => trivial
   | list e => trivial
   | map k v => trivial
@@ -769,6 +770,110 @@ theorem propWalk_prop {ns : NS} {i k : Nat} {t : Top} {p : Prop'} (s : St)
   have e := propWalk_tf ns s
   simp only [propWalk] at e
   rwa [e] at this
+
+/-- `foldl_preserve` / `foldl_establish` with an invariant `I` that every step keeps -/
+theorem foldl_preserve_inv {α β : Type} (f : α → β → α) (I P : α → Prop)
+    (hI : ∀ a k, I a → I (f a k)) (hP : ∀ a k, I a → P a → P (f a k)) :
+    ∀ (l : List β) (a : α), I a → P a → P (l.foldl f a)
+  | [], _, _, h => h
+  | k :: l, a, hi, h => foldl_preserve_inv f I P hI hP l (f a k) (hI a k hi) (hP a k hi h)
+
+theorem foldl_establish_inv {α β : Type} (f : α → β → α) (I P : α → Prop)
+    (hI : ∀ a k, I a → I (f a k)) (hP : ∀ a k, I a → P a → P (f a k))
+    (i : β) (hi : ∀ a, I a → P (f a i)) : ∀ (l : List β) (a : α), I a → i ∈ l → P (l.foldl f a)
+  | [], _, _, h => by cases h
+  | k :: l, a, hia, h => by
+    rcases List.mem_cons.mp h with rfl | hm
+    · exact foldl_preserve_inv f I P hI hP l _ (hI a _ hia) (hi a hia)
+    · exact foldl_establish_inv f I P hI hP i hi l (f a k) (hI a k hia) hm
+
+/-- a field with an anonymous callback that is still introspectable after pass 3: the callback
+    was introspectable when pass 3 started, and it is not skipped (commit efccda4) -/
+theorem pass3Walk_anon {ns : NS} {i k j : Nat} {t : Top} {b : Bool} {fs : List Field} {ps : List Prop'}
+    {subs : List Sub} {f : Field} (s : St)
+    (ht : ns.tops[i]? = some t) (hs : t.skip = false) (hb : t.body = .compound b fs ps subs)
+    (hf : fs[k]? = some f) (hanon : f.anon = some j)
+    (hflag : ((pass3Walk ns s).ff.getD i []).getD k false = true) :
+    (s.sf.getD i []).getD j false = true ∧ subSkipped subs j = false := by
+  have hi : i < ns.tops.length := by
+    rcases Nat.lt_or_ge i ns.tops.length with h | h
+    · exact h
+    · rw [List.getElem?_eq_none h] at ht; cases ht
+  have key := foldl_establish_inv (pass3Step ns) (fun a => StLe a s)
+    (fun a => (a.ff.getD i []).getD k false = true →
+      (s.sf.getD i []).getD j false = true ∧ subSkipped subs j = false)
+    (fun a j' h => (pass3Step_le ns a j').trans h)
+    (fun a j' _ h h' => by
+      apply h
+      cases hx : (a.ff.getD i []).getD k false with
+      | true => rfl
+      | false => rw [getD2_false_of_le2 (pass3Step_le ns a j').2.2.1 hx] at h'; cases h')
+    i
+    (fun a hle h' => by
+      unfold pass3Step at h'
+      rw [ht] at h'
+      simp only [hs, Bool.false_eq_true, if_false, hb] at h'
+      have h2 := getD2_set_true _ _ _ _ h'
+      have hsle := (hle.2.1.2 i).2 j
+      generalize a.ff.getD i [] = row at h2
+      generalize a.sf.getD i [] = srow at h2 hsle
+      rw [getD_rowMap] at h2
+      cases hr : row[k]? with
+      | none => simp [hr] at h2
+      | some b' =>
+        simp only [hr, hf, fieldKeepPass3, hanon] at h2
+        cases hrow : srow.getD j false with
+        | false => rw [hrow] at h2; simp at h2
+        | true =>
+          cases hsk : subSkipped subs j with
+          | true => rw [hrow, hsk] at h2; simp at h2
+          | false => exact ⟨hsle hrow, rfl⟩)
+    _ s (StLe.refl s) (List.mem_range.mpr hi)
+  exact key hflag
+
+theorem getD_set_ne (m : List (List Bool)) {i i' : Nat} (r : List Bool) (h : i' ≠ i) :
+    (m.set i' r).getD i [] = m.getD i [] := by
+  simp [List.getD, h]
+
+/-- pass 3 re-analyses signals only: the flag of any other nested callable is left alone -/
+theorem pass3Step_sf_keep {ns : NS} {i j : Nat} {t : Top} {b : Bool} {fs : List Field} {ps : List Prop'}
+    {subs : List Sub} {sub : Sub} (a : St) (i' : Nat)
+    (ht : ns.tops[i]? = some t) (hb : t.body = .compound b fs ps subs)
+    (hsub : subs[j]? = some sub) (hsig : sub.sig.isSignal = false)
+    (h : (a.sf.getD i []).getD j false = true) :
+    ((pass3Step ns a i').sf.getD i []).getD j false = true := by
+  unfold pass3Step
+  split
+  · exact h
+  · rename_i t' ht'
+    split
+    · exact h
+    · split
+      · rename_i b' fs' ps' subs' hb'
+        by_cases hii : i' = i
+        · subst hii
+          rw [ht] at ht'; cases ht'
+          rw [hb] at hb'; cases hb'
+          simp only
+          rw [getD_getD_set _ _ _ _ h, getD_rowMap]
+          generalize a.sf.getD i' [] = row at h ⊢
+          cases hr : row[j]? with
+          | none => simp [List.getD, hr] at h
+          | some b0 =>
+            have hb0 : b0 = true := by simpa [List.getD, hr] using h
+            simp [hsub, subKeep, hsig, hb0]
+        · simp only
+          rw [getD_set_ne _ _ hii]; exact h
+      · exact h
+
+theorem pass3Walk_sf_keep {ns : NS} {i j : Nat} {t : Top} {b : Bool} {fs : List Field} {ps : List Prop'}
+    {subs : List Sub} {sub : Sub} (s : St)
+    (ht : ns.tops[i]? = some t) (hb : t.body = .compound b fs ps subs)
+    (hsub : subs[j]? = some sub) (hsig : sub.sig.isSignal = false)
+    (h : (s.sf.getD i []).getD j false = true) :
+    ((pass3Walk ns s).sf.getD i []).getD j false = true :=
+  foldl_preserve (pass3Step ns) (fun a => (a.sf.getD i []).getD j false = true)
+    (fun a i' h' => pass3Step_sf_keep a i' ht hb hsub hsig h') _ s h
 
 /-! ## Part F: shape of `validate`, `_introspectable_param_analysis` unfolded, the writer's lookups -/
 
